@@ -540,3 +540,36 @@ Definition h_deliver_bounded_wait (cap : nat) (st : hst) : hst :=
               then mkH t (mkRd (rd_unread (h_rd st)) (rd_queue (h_rd st) ++ [p])) (h_closed st)
               else mkH t (h_rd st) (h_closed st)
   end.
+
+(* ---------------------------------------------------------------- Write has value semantics *)
+(* plan_events / serialize take the written bytes as VALUES.  The code gets them from a caller-owned, mutable
+   buffer: Session.Write(b) queues segments and returns before they are encrypted (the output goroutine does that
+   later, under the underlay's sendMutex), and the application may refill b as soon as Write returned (io.Copy
+   does).  writeChunk therefore COPIES the payload into the queued segment.  The small machine below makes the
+   obligation explicit: [copy = true] is the code, [copy = false] the aliasing variant (the queued segment refers
+   to the caller's buffer and is resolved when it is finally encrypted). *)
+Inductive astep : Set :=
+| ASet (b : list N)   (* the application (re)fills its buffer *)
+| AWrite              (* Write(buffer) : the segment is queued, Write returns *)
+| AFlush.             (* the output goroutine encrypts and sends everything queued *)
+Inductive qent : Set :=
+| QVal (v : list N)   (* an own copy of the payload *)
+| QRef (n : nat).     (* a reference to the first n bytes of the caller's buffer *)
+Record ast : Set := mkA { a_buf : list N; a_queue : list qent; a_sent : list (list N) }.
+Definition a_init : ast := mkA [] [] [].
+Definition resolve (buf : list N) (e : qent) : list N := match e with QVal v => v | QRef n => firstn n buf end.
+Definition a_step (copy : bool) (st : ast) (s : astep) : ast :=
+  match s with
+  | ASet b => mkA b (a_queue st) (a_sent st)
+  | AWrite => mkA (a_buf st) (a_queue st ++ [if copy then QVal (a_buf st) else QRef (length (a_buf st))]) (a_sent st)
+  | AFlush => mkA (a_buf st) [] (a_sent st ++ map (resolve (a_buf st)) (a_queue st))
+  end.
+Definition a_run (copy : bool) (st : ast) (steps : list astep) : ast := fold_left (a_step copy) steps st.
+(* the contents of the buffer at the moments Write was called *)
+Fixpoint values_written (buf : list N) (steps : list astep) : list (list N) :=
+  match steps with
+  | [] => []
+  | ASet b :: t => values_written b t
+  | AWrite :: t => buf :: values_written buf t
+  | AFlush :: t => values_written buf t
+  end.
